@@ -335,7 +335,8 @@ def plain_config(p, save_dir, chunks_dir, slp, key):
             "use_existing_chunks": False,
             "delete_chunks_after_training": p["delete_chunks"],
             "preprocessing": {"is_rgb": False, "max_width": None, "max_height": None, "scale": p.get("scale", 0.25),
-                              "crop_hw": [48, 48] if p["model_type"] == "centered_instance" else None, "min_crop_size": None},
+                              "crop_hw": [48, 48] if (p["model_type"] == "centered_instance" and not p.get("crop_auto")) else None,
+                              "min_crop_size": p.get("min_crop_size")},
             "use_augmentations_train": p.get("aug", False),
             "augmentation_config": {"intensity": {"contrast_p": 0.5}, "geometric": {"rotation": 15.0, "affine_p": 0.5}},
         },
@@ -353,7 +354,7 @@ def plain_config(p, save_dir, chunks_dir, slp, key):
             "train_data_loader": {"batch_size": 1, "shuffle": True, "num_workers": 0},
             "val_data_loader": {"batch_size": 1, "num_workers": 0},
             "model_ckpt": {"save_top_k": 1, "save_last": p["save_last"]},
-            "early_stopping": {"stop_training_on_plateau": p.get("early", False), "min_delta": 1e-8, "patience": 3},
+            "early_stopping": None if p.get("early_null") else {"stop_training_on_plateau": p.get("early", False), "min_delta": 1e-8, "patience": 3},
             "trainer_devices": 1,
             "trainer_accelerator": "cpu",
             "enable_progress_bar": False,
@@ -366,12 +367,27 @@ def plain_config(p, save_dir, chunks_dir, slp, key):
             "resume_ckpt_path": None,
             "wandb": {"entity": None, "project": "simproj", "name": "simrun", "wandb_mode": p.get("wandb_mode"),
                       "api_key": key, "prv_runid": None, "group": None},
-            "optimizer_name": "Adam",
+            "optimizer_name": p.get("optimizer", "Adam"),
             "optimizer": {"lr": 1e-4, "amsgrad": False},
-            "lr_scheduler": {"reduce_lr_on_plateau": {"threshold": 1e-7, "threshold_mode": "rel", "cooldown": 3,
-                                                        "patience": 5, "factor": 0.5, "min_lr": 1e-8}},
+            "lr_scheduler": lr_section(p.get("lr_sched", "plateau")),
         },
     }
+
+
+PLATEAU = {"threshold": 1e-7, "threshold_mode": "rel", "cooldown": 3, "patience": 5, "factor": 0.5, "min_lr": 1e-8}
+
+
+def lr_section(kind):
+    """The documented shapes of trainer_config.lr_scheduler (schema: Optional[LRSchedulerConfig], both members optional)."""
+    if kind == "plateau":
+        return {"reduce_lr_on_plateau": dict(PLATEAU)}
+    if kind == "step":
+        return {"step_lr": {"step_size": 10, "gamma": 0.5}}
+    if kind == "both_null":
+        return {"step_lr": None, "reduce_lr_on_plateau": None}
+    if kind == "null":
+        return None
+    raise ValueError(kind)
 
 
 def build_config(p, save_dir, chunks_dir, slp, key):
@@ -396,7 +412,7 @@ def build_config(p, save_dir, chunks_dir, slp, key):
     data_config = T.get_data_config(
         train_labels_path=slp, val_labels_path=slp, data_pipeline_fw=p["fw"], np_chunks_path=chunks_dir,
         delete_chunks_after_training=p["delete_chunks"], is_rgb=False, scale=pre["scale"],
-        crop_hw=tuple(pre["crop_hw"]) if pre["crop_hw"] else None, min_crop_size=None,
+        crop_hw=tuple(pre["crop_hw"]) if pre["crop_hw"] else None, min_crop_size=pre["min_crop_size"],
         use_augmentations_train=False,
     )
     heads = {k: v for k, v in d["model_config"]["head_configs"].items()}
@@ -410,9 +426,9 @@ def build_config(p, save_dir, chunks_dir, slp, key):
         trainer_num_devices=1, trainer_accelerator="cpu", enable_progress_bar=False, steps_per_epoch=1,
         max_epochs=tc["max_epochs"], seed=1000, use_wandb=p["use_wandb"], save_ckpt=p["save_ckpt"],
         save_ckpt_path=save_dir, wandb_project="simproj", wandb_name="simrun", wandb_api_key=key,
-        wandb_mode=p.get("wandb_mode"), learning_rate=1e-4,
-        lr_scheduler={"reduce_lr_on_plateau": tc["lr_scheduler"]["reduce_lr_on_plateau"]},
-        early_stopping=tc["early_stopping"]["stop_training_on_plateau"],
+        wandb_mode=p.get("wandb_mode"), learning_rate=1e-4, optimizer=p.get("optimizer", "Adam"),
+        lr_scheduler={"plateau": {"reduce_lr_on_plateau": dict(PLATEAU)}, "step": "step_lr", "both_null": None, "null": None}[p.get("lr_sched", "plateau")],
+        early_stopping=bool(tc["early_stopping"] and tc["early_stopping"]["stop_training_on_plateau"]),
     )
     cfg = TrainingJobConfig(data_config=data_config, model_config=model_config, trainer_config=trainer_config)
     return cfg.to_sleap_nn_cfg()
